@@ -617,9 +617,25 @@ func doEval(id string, rule string, objx *sexp) string {
 	e2Text := textClass(e2)
 	frame2 := same(obj, snap)
 	acc, _ := strictAccept(strings.TrimSpace(rule))
-	return fmt.Sprintf("%s verdict=%s err=%s dbg=%s accept=%s ev3=%s%s%s newerr=%s dbgtext=%s errtext=%s,%s frame=%s escaped=%s",
+	// the same rule and object once more, on a new evaluator: outcomes must not depend on map
+	// iteration order, on what the first evaluation left behind, or on chance
+	det := true
+	var ev2 *parser.Evaluator
+	var newErr2, perr2, dbg2 error
+	var verdict2 bool
+	guard(func() { ev2, newErr2 = parser.NewEvaluator(rule) })
+	if ev2 != nil && newErr2 == nil {
+		guard(func() { verdict2, perr2 = ev2.Process(obj) })
+		guard(func() { dbg2 = ev2.LastDebugErr() })
+		if ev == nil || newErr != nil || verdict2 != verdict || errClass(perr2) != errClass(perr) || dbgClass(dbg2) != dbgClass(dbg) {
+			det = false
+		}
+	} else if ev != nil && newErr == nil {
+		det = false
+	}
+	return fmt.Sprintf("%s verdict=%s err=%s dbg=%s accept=%s ev3=%s%s%s newerr=%s dbgtext=%s errtext=%s,%s frame=%s escaped=%s det=%s",
 		id, b01(verdict), errClass(perr), dbgClass(dbg), b01(acc), b01(v2), b01(e2 != nil), b01(v3),
-		b01(newErr != nil), dbgText, errText, e2Text, b01(frame1 && frame2), b01(escaped))
+		b01(newErr != nil), dbgText, errText, e2Text, b01(frame1 && frame2 && same(obj, snap)), b01(escaped), b01(det))
 }
 
 func hexOf(s string) string {
